@@ -68,6 +68,7 @@ def run(ctx):
             ctx.note('C34 reviewed entry %s|%s is not needed any more (site removed or auto-discharged): entry can be dropped' % (short(e['fn']), e['what']))
     counts(ctx, fb)
     cursor_rule(ctx, fb)
+    header_len_field(ctx, fb)
 
 
 def const_bounded(f, bb, op):
@@ -269,3 +270,37 @@ def counts(ctx, fb):
     al = [c for c in f.calls() if call_is(c, C05.ALLOC)]
     ok4 = bool(al) and all(const_bounded(f, c.bb, c.args[-1]) for c in al)
     ctx.inst(R, 'allocation-bounded', ok4, 'the data buffer is allocated only under n_bytes <= u32::MAX', f.loc())
+
+
+
+def header_len_field(ctx, fb):
+    """round trip: the reader takes the npy header to be exactly as long as the u16 length field says, and everything after it
+    to be element data.  The writer must therefore store the *measured* length of the header text it emits: the value
+    converted to u16 in build_header is String::len() of the dictionary text, measured after the last byte was appended to
+    it (a separately computed length that disagrees by one shifts every element of the array by a byte - same shape, same
+    dtype, wrong values, no error)."""
+    R = 'C34.writer'
+    fs = [x for x in fb.fns(crate=CRATE) if x.has_mir() and x.path.endswith('npy::build_header')]
+    if not ctx.anchor(R, 'npy::build_header', len(fs) == 1):
+        return
+    f = fs[0]
+    tf = [c for c in f.calls() if re.search(r'TryFrom<usize> for u16>::try_from$', c.callee or '')]
+    ok, why = bool(tf), 'no u16 length conversion found'
+    for c in tf:
+        r = f.resolve_copy(c.args[0])
+        if not (r[0] == 'call' and re.search(r'String::len$|Vec::<T(, A)?>::len$|<impl str>::len$', r[1].callee or '')):
+            ok, why = False, 'the length field is computed (%s), not measured with len() on the emitted text' % (r[1].callee.split('::')[-1] if r[0] == 'call' else r[0])
+            continue
+        ln = r[1]
+        # every append to that text dominates the measurement; the same text is what gets written out
+        recv = f.origins(ln.args[0])
+        apps = [k for k in f.calls() if re.search(r'String::push(_str)?$|Extend<.*>>::extend$|String::extend', k.callee or '') and (f.origins(k.args[0]) & recv)]
+        late = [k for k in apps if not f.dominates(k.bb, ln.bb)]
+        outs = [k for k in f.calls() if re.search(r'Vec::<T(, A)?>::extend_from_slice$', k.callee or '') and any(o[0] == 'call' and re.search(r'String::as_bytes$', o[1] or '') for o in f.origins(k.args[1]))]
+        if late:
+            ok, why = False, 'the text is still appended to (line %s) after its length was measured' % late[0].line
+        elif not outs:
+            ok, why = False, 'the measured text is not what is written to the header'
+        else:
+            why = 'the u16 length field is String::len() of the dictionary text, measured after the last append, and that text is what is written'
+    ctx.inst(R, 'npy-header-length-is-measured', ok, why if ok else why + ': a length field that disagrees with the bytes written shifts the element data read back', f.loc())
